@@ -170,7 +170,7 @@ class Interp:
         s.mod, s.ex = mod, (ex or EX); s.steps = 0; s.max_steps = max_steps
         s.events = []      # (kind, msg, line)
         s.nobj = 0; s.fresh_n = 0
-        s.trig = {}; s.accesses = None; s.call_hooks = {}; s.lastframe = {}; s.frames = {}; s.stack = []; s.omp_mode = 'seq'; s.in_reduction = False; s.store_hooks = {}; s.call_replace = {}
+        s.trig = {}; s.accesses = None; s.call_hooks = {}; s.lastframe = {}; s.frames = {}; s.stack = []; s.omp_mode = 'seq'; s.in_reduction = False; s.cur_tid = 0; s.num_threads = 1; s._disp = 0; s.store_hooks = {}; s.call_replace = {}
     def fresh_real(s, p="f"):
         s.fresh_n += 1; return z3.Real("%s!%d" % (p, s.fresh_n))
     def newobj(s, name, size, init=None, kind="arg"):
@@ -420,7 +420,7 @@ class Interp:
             s.store(plb, "i32", s.omp_iter, ins); s.store(pub, "i32", s.omp_iter, ins)
             s.store(pstride, "i32", 1 << 30, ins); s.store(plast, "i32", 0, ins); return None
         if name == "__kmpc_for_static_fini": return None
-        if name == "__kmpc_barrier": return None
+        if name in ("__kmpc_barrier", "__kmpc_flush"): return None      # sequentially consistent memory model: a flush is a no-op
         if name == "__kmpc_reduce_nowait": s.in_reduction = True; return 1
         if name == "__kmpc_end_reduce_nowait": s.in_reduction = False; return None
         if name == "__kmpc_global_thread_num": return 0
@@ -429,18 +429,35 @@ class Interp:
             # args: ident, argc, microtask (bitcast constexpr), captured pointers...
             m = re.search(r"@([\w.$]+)", a[2][1] if isinstance(a[2], tuple) else str(a[2]))
             fn = m.group(1); cap = a[3:]
+            s.fork_count = getattr(s, "fork_count", 0) + 1
             def cell(v):
-                o = s.newobj("tid", 4, None, "priv"); o.mem[0] = (0, 4); return Ptr(o, 0)
-            if s.omp_mode == "seq":
-                s.call(fn, [cell(0), cell(0)] + list(cap)); return None
+                o = s.newobj("tid", 4, None, "priv"); o.mem[0] = (v, 4); return Ptr(o, 0)
+            if s.omp_mode == "threads" and s.fork_count == getattr(s, "fork_target", 1):
+                s.thread_handler(s, fn, cap, cell); return None
+            if s.omp_mode != "foot" or s.fork_count != getattr(s, "fork_target", 1):
+                old = (s.omp_mode, s.cur_tid, s.num_threads); s.omp_mode = "seq"; s.cur_tid = 0; s.num_threads = 1
+                try: s.call(fn, [cell(0), cell(0)] + list(cap))
+                finally: s.omp_mode, s.cur_tid, s.num_threads = old
+                return None
             # footprint mode: two abstract iterations kA != kB of the same loop, each from the same pre-state
             s.foot = []
             for tag, k in zip("AB", s.omp_iters):
-                s.omp_iter = k; s.accesses = []; s.in_reduction = False
+                s.omp_iter = k; s.accesses = []; s.in_reduction = False; s._disp = 0
                 s.call(fn, [cell(0), cell(0)] + list(cap))
                 s.foot.append(list(s.accesses))
             s.accesses = None
             raise PathEnd("footprint")
+        if name == "__kmpc_dispatch_init_4": s._disp = 0; s._disp_range = (a[3], a[4], a[5]); return None
+        if name == "__kmpc_dispatch_next_4":
+            loc, gtid, plast, plb, pub, pst = a
+            if s.omp_mode != "foot":       # one thread takes the whole range in a single chunk
+                if s._disp: return 0
+                s._disp = 1; lb, ub, st = s._disp_range
+                s.store(plb, "i32", lb, ins); s.store(pub, "i32", ub, ins); s.store(pst, "i32", st, ins); s.store(plast, "i32", 1, ins); return 1
+            if s._disp: return 0
+            s._disp = 1
+            s.store(plb, "i32", s.omp_iter, ins); s.store(pub, "i32", s.omp_iter, ins); s.store(pst, "i32", 1, ins); s.store(plast, "i32", 0, ins); return 1
+        if name == "omp_get_max_threads": return getattr(s, "max_threads", s.num_threads)
         if name == "omp_get_thread_num": return s.cur_tid
         if name == "omp_get_num_threads": return s.num_threads
         if name in ("llvm.dbg.declare", "llvm.dbg.value", "llvm.dbg.label", "llvm.lifetime.start.p0i8", "llvm.lifetime.end.p0i8", "my_get_time"): return None
@@ -454,8 +471,10 @@ class Interp:
         for (t, nm), v in zip(f.params, args): env[nm] = v
         blk = f.entry; prev = None
         frame_objs = []; frame = {}; s.stack.append(frame)
+        st = s.stack
         try: return s._run(f, fname, env, blk, prev, frame_objs, frame, depth)
-        finally: s.stack.pop()
+        finally:
+            if st and st[-1] is frame: st.pop()
     def _run(s, f, fname, env, blk, prev, frame_objs, frame, depth):
         while True:
             for ins in f.blocks[blk]:
@@ -518,11 +537,19 @@ class Interp:
                     elif op == "zext":
                         if isinstance(a, bool): r = int(a)
                         elif z3.is_bool(a) if is_sym(a) else False: r = z3.If(a, 1, 0)
-                        elif is_sym(a): r = a     # assume non-negative (checked elsewhere)
+                        elif is_sym(a):
+                            # values are kept in their signed reading; zero extension re-reads the bit pattern as unsigned
+                            sb = int(ty[1:])
+                            r = z3.If(a < 0, a + (1 << sb), a) if s.ex.feasible([a < 0]) else a
                         else: r = a % (1 << int(ty[1:]))
                     elif op == "trunc":
                         bits = int(to[1:])
-                        if is_sym(a): r = a
+                        if is_sym(a):
+                            # wrap-around of a symbolic value: only modelled (with mod) when the value can leave the target range
+                            lim = 1 << (bits - 1) if bits > 1 else 1
+                            if bits == 1: r = (a % 2) != 0
+                            elif s.ex.feasible([z3.Or(a >= lim, a < -lim)]): r = ((a + lim) % (1 << bits)) - lim
+                            else: r = a
                         else:
                             r = a & ((1 << bits) - 1)
                             if bits > 1 and r >= 1 << (bits - 1): r -= 1 << bits
